@@ -206,9 +206,11 @@ Section Model.
   Context {T : Type} (SC : Scalar T).
 
   Record env := mkEnv {
-    pyfloat : string -> option T;        (* float(tok); None = ValueError *)
-    pytrunc : string -> option Z;        (* int(float(tok)) *)
-    pyround : string -> option Z;        (* round(float(tok)) *)
+    pyfloat : string -> option T;        (* datacard.to_float(tok) (float(), then the Fortran
+                                            spellings 1.5d3, 1.5+3); None = ValueError *)
+    pytrunc : string -> option Z;        (* int(float(tok)): plain float() *)
+    pyround : string -> option Z;        (* round(to_float(tok)) *)
+    pytotrunc : string -> option Z;      (* int(to_float(tok)) *)
     trtab : Z -> option (list T);        (* self.transforms[n][:12]; None = KeyError *)
     normtr : list T -> res (list T);     (* normalize_transform *)
     normfloat : string -> string;        (* normalize_float *)
@@ -330,16 +332,18 @@ Section Model.
     end.
 
   (* the transformation part shared by parse_fill_kw and parse_trcl_kw (after
-     float() of every entry) *)
-  Definition fill_params (e : env) (elt : string) (ps : list string) (vals : list T)
-    : res (list T) :=
+     to_float() of every entry; by number: int(to_float(.))) *)
+  (* [star_empty]: parse_trcl_kw sends an empty starred list through
+     normalize_transform (identity), parse_fill_kw does not (fix c2e06ed) *)
+  Definition fill_params (star_empty : bool) (e : env) (elt : string) (ps : list string)
+             (vals : list T) : res (list T) :=
     match ps with
-    | [p] => match pytrunc e p with
+    | [p] => match pytotrunc e p with
              | None => Err EValue
              | Some n => match trtab e n with Some l => Ok l | None => Err EKey end
              end
     | [_; _; _] => Ok (vals ++ ident9)%list
-    | [] => Ok []
+    | [] => if star_empty && has "*" elt then normtr e [] else Ok []
     | _ => if has "*" elt then normtr e (star_cos vals) else normtr e vals
     end.
 
@@ -368,7 +372,7 @@ Section Model.
         let '(ps, r') := span numeric_start r in
         match map_opt (pyfloat e) ps with
         | None => Err EValue
-        | Some vals => fill_params e elt ps vals >>= fun fp => Ok (d_fill fb fu fp, r')
+        | Some vals => fill_params false e elt ps vals >>= fun fp => Ok (d_fill fb fu fp, r')
         end
     end.
 
@@ -389,7 +393,7 @@ Section Model.
     match map_opt (pyfloat e) ps with
     | None => Err EValue
     | Some vals =>
-        fill_params e elt ps vals >>= fun v =>
+        fill_params true e elt ps vals >>= fun v =>
         Ok (mkKws [] None None None None (Some v) None None None, r)
     end.
 
